@@ -562,6 +562,42 @@ def offset_is_padded_header_size(ctx, b, off):
     return True, "size_of::<%s>() rounded up to align_of::<%s>()" % (list(st)[0], list(at)[0])
 
 
+def _counts_zero_to_param(b, fl, l, use_bb):
+    """Local l is a loop counter running 0, 1, .. up to (excluding) a parameter: initialised to the constant 0 before the loop that
+    contains use_bb, stepped by exactly +1 inside that loop and nowhere else, and use_bb lies behind the true edge of `l < param`
+    tested in the same loop; the step comes after the use (use_bb reaches the step block, not the other way round without passing
+    the loop head)."""
+    loops = [(h, body) for h, body in b.loops().items() if use_bb in body]
+    if not loops:
+        return False
+    head, body = min(loops, key=lambda x: len(x[1]))
+    inits, steps = [], []
+    for (db, ix, k, n) in fl.defs.get(l, []):
+        if k != "assign":
+            return False
+        e = fl.rvalue_expr(n["rv"], db)
+        if e[0] == "const" and str(e[2]) == "0" and db not in body and b.dominates(db, head):
+            inits.append(db)
+        elif db in body:
+            e2 = e[1] if (e[0] == "proj" and e[2] == (".0",)) else e
+            if e2[0] == "binop" and e2[1].startswith("Add") and e2[2] == ("multi", l) and e2[3][0] == "const" and str(e2[3][2]) == "1":
+                steps.append(db)
+            else:
+                return False
+        else:
+            return False
+    if len(inits) != 1 or len(steps) != 1:
+        return False
+    guarded = False
+    for sb in body:
+        for tgt, labs in fl.edge_labels(sb).items():
+            for lab in labs:
+                if lab[0] == "bool" and lab[2] is True and lab[1][0] == "binop" and lab[1][1] == "Lt" and strip_refs(lab[1][2]) == ("multi", l) \
+                        and strip_refs(lab[1][3])[0] == "param" and b.dominates(tgt, use_bb) and len(b.pred[tgt]) == 1:
+                    guarded = True
+    return guarded and b.dominates(use_bb, steps[0])
+
+
 def r3_5(ctx, R, layout_fn):
     ctx.rule("R3.5", "header-pointer arithmetic agreement: (a) the byte-offset helper is used by exactly the slice-start "
                      "computation, the reverse computation and the constructor; (b) in the constructor every "
@@ -643,6 +679,13 @@ def r3_5(ctx, R, layout_fn):
                             rng_ok = True
                             if ok:
                                 covered |= {"0..cap", "cap"}
+                if not rng_ok:
+                    # the counted form of the same loop: `let mut i = 0; while i < cap { write(slice.add(i), item(i)); i += 1 }`
+                    si = strip_refs(idx)
+                    if si[0] == "multi" and _counts_zero_to_param(ctor, cf, si[1], bb):
+                        rng_ok = True
+                        if ok:
+                            covered.add("0..cap")
                 ok = ok and rng_ok
             else:
                 ok = ok and strip_refs(idx)[0] == "param"
